@@ -1,6 +1,6 @@
 SPECIFICATION Spec
 INVARIANTS
-  Reflexive MergeIdempotent RoundTrip IncrementAfter OperandsUntouched IncrementSurvivesWire MergeSurvivesWire LongNodeIds
+  Reflexive MergeIdempotent RoundTrip IncrementAfter OperandsUntouched IncrementSurvivesWire MergeSurvivesWire LongNodeIds LargeMerge ConcurrentWire
   Converse Antisymmetric Transitive MergeClosed MergeCommutes MergeAssociative
   MergeUpperBound MergeLeast ProductOrder
 CHECK_DEADLOCK FALSE
